@@ -306,3 +306,8 @@ func Interesting(printed string) bool {
 }
 
 func sortStrings(xs []string) { sort.Strings(xs) }
+
+// MustLitI / MustLitF / MustLitT build int64 / float64 / text literals.
+func MustLitI(v int64) *literal.Literal   { return MustLit(literal.Int64, v) }
+func MustLitF(v float64) *literal.Literal { return MustLit(literal.Float64, v) }
+func MustLitT(v string) *literal.Literal  { return MustLit(literal.Text, v) }
